@@ -227,6 +227,34 @@ func tagHolds(x ssa.Value, blk *ssa.BasicBlock) map[string]bool {
 	return out
 }
 
+// pushesThroughReceiver: a method with a pointer receiver that appends to what the receiver
+// points to (*s = append(*s, v)).
+func pushesThroughReceiver(fn *ssa.Function) bool {
+	if fn == nil || fn.Blocks == nil || len(fn.Params) == 0 {
+		return false
+	}
+	recv := fn.Params[0]
+	if _, isPtr := recv.Type().Underlying().(*types.Pointer); !isPtr {
+		return false
+	}
+	for _, b := range fn.Blocks {
+		for _, ins := range b.Instrs {
+			st, ok := ins.(*ssa.Store)
+			if !ok || st.Addr != ssa.Value(recv) {
+				continue
+			}
+			if c, ok := st.Val.(*ssa.Call); ok {
+				if bi, ok := c.Call.Value.(*ssa.Builtin); ok && bi.Name() == "append" {
+					if ld, ok := c.Call.Args[0].(*ssa.UnOp); ok && ld.X == ssa.Value(recv) {
+						return true
+					}
+				}
+			}
+		}
+	}
+	return false
+}
+
 // notStoredInto: no element of the list is assigned in the function that reads it (a parameter
 // or a local list that is only read).
 func notStoredInto(list ssa.Value) bool {
@@ -2630,6 +2658,20 @@ func c13StackAccessor(w *World, r *Result, role string, fn *ssa.Function, und in
 		for _, f := range w.Funcs(role) {
 			for _, b := range f.Blocks {
 				for _, ins := range b.Instrs {
+					// a push made by a method of the stack's own type: c.fors.push(v) with *s = append(*s, v)
+					if pc, isCall := ins.(*ssa.Call); isCall && len(pc.Call.Args) > 0 {
+						if fa, ok := pc.Call.Args[0].(*ssa.FieldAddr); ok && structFieldName(fa.X.Type(), fa.Field) == field && pushesThroughReceiver(pc.Call.StaticCallee()) {
+							for _, op := range []struct{ m, k string }{{"ForStart", "loop"}, {"IfStart", "if"}, {"FuncStart", "func"}} {
+								for _, g := range w.Funcs(role) {
+									if g.Name() == op.m && g.Signature.Recv() != nil {
+										if g == f || reachFn(g, f, map[*ssa.Function]bool{}) {
+											return op.k
+										}
+									}
+								}
+							}
+						}
+					}
 					st, ok := ins.(*ssa.Store)
 					if !ok {
 						continue
